@@ -41,8 +41,9 @@ def main(argv):
             mod.run_shard(ctx)
         for f in vrun.SHADOW["found"]:
             from vf.util import short
+            kf = vrun.classify_shadow(f)
             ctx.violation("same_call_differs:" + f["path"].split("(")[0].strip().replace(" ", "_"), {"gen": "shadow", "ddl": f["ddl"], "ctor": f["ctor"], "run_kw": f["run_kw"]},
-                          {"path": f["path"], "observed": short(f["observed"], 300), "plain_call": short(f["first_call"], 300)})
+                          {"path": f["path"], "observed": short(f["observed"], 300), "plain_call": short(f["first_call"], 300)}, kf=kf)
         ctx.obs["shadow_repeats_of_parse_calls"] += vrun.SHADOW["n"]
         if vrun.SHADOW.get("bystander_n"):
             ctx.obs["shadow_runs_with_a_bystander_object"] += vrun.SHADOW["bystander_n"]
